@@ -62,11 +62,31 @@ def check_tree(ctx, text, labels, D, w, what):
 	if ambiguous:
 		# duplicates: only identical-genome duplicates are generated, so any assignment is equivalent when their rows are equal
 		pass
-	leaf_index = {}
-	pools = {k: list(v) for k, v in by_label.items()}
-	for l in leaves:
-		leaf_index[id(l)] = pools[l.name or ''].pop(0)
-	problems = upgma.validate(root, leaf_index, D, tol)
+	# leaves that share a label cannot be told apart in the output: the tree is accepted if SOME assignment of those leaves to the
+	# inputs with that label validates (all assignments are tried; groups are small)
+	import itertools
+	groups = [(lab, idxs) for lab, idxs in by_label.items() if len(idxs) > 1]
+	nassign = 1
+	for _, idxs in groups:
+		for f in range(2, len(idxs) + 1):
+			nassign *= f
+	if nassign > 5000:
+		groups_iter = [tuple(idxs for _, idxs in groups)]       # too many: identical-genome duplicates only (any assignment is equivalent)
+	else:
+		groups_iter = itertools.product(*[itertools.permutations(idxs) for _, idxs in groups])
+	problems = None
+	for choice in groups_iter:
+		pools = {k: list(v) for k, v in by_label.items()}
+		for (lab, _), perm in zip(groups, choice):
+			pools[lab] = list(perm)
+		leaf_index = {}
+		for l in leaves:
+			leaf_index[id(l)] = pools[l.name or ''].pop(0)
+		problems = upgma.validate(root, leaf_index, D, tol)
+		if not problems:
+			break
+	if ambiguous:
+		ctx.count('trees_with_leaves_sharing_a_label')
 	if problems:
 		mech = 'not-ultrametric' if 'equidistant' in problems[0] else 'not-upgma'
 		ctx.violation(mech, f'{what}: {problems[0]}', w)
@@ -81,7 +101,7 @@ def run_shard(sh, ctx):
 	for rnd in range(sh['nrounds']):
 		base = ctx.workdir / f'r{rnd}'
 		base.mkdir()
-		style = rng.choice(['mixed', 'mixed', 'identical-heavy', 'equidistant', 'two', 'many', 'empties'])
+		style = rng.choice(['mixed', 'mixed', 'identical-heavy', 'equidistant', 'two', 'many', 'empties', 'same-label'])
 		n = {'two': 2, 'many': rng.randint(25, 40)}.get(style, rng.randint(3, 12))
 		G = _cli.Genomes(rng, base / 'genomes', n, identical_pairs=style != 'equidistant', empty=style == 'mixed', related=style != 'equidistant')
 		channel = rng.choice(['files', 'listfile', 'sigfile'])
@@ -91,6 +111,12 @@ def run_shard(sh, ctx):
 		idx = list(range(n))
 		if style == 'identical-heavy':
 			idx = idx + [rng.randrange(n) for _ in range(3)]      # the same genome file passed several times (duplicate labels, zero distances)
+		if style == 'same-label':
+			# different genomes whose files yield the same label (same name in another directory / other extension): every leaf still
+			# stands for its own genome
+			for _ in range(rng.randint(1, 2)):
+				idx.append(G.add_collision(rng.choice(idx[:n])))
+			rng.shuffle(idx)
 		if style == 'empties':
 			# several genomes without any prefix occurrence: their signatures are empty and identical (distance 0 among them, 1 to the rest)
 			from vf.oracles.fasta import write_fasta as _wf
@@ -157,7 +183,7 @@ def run_shard(sh, ctx):
 
 def finalize(merged, tier, seed, inconclusive):
 	c = merged['counters']
-	for n in ['trees_validated', 'style:equidistant', 'style:identical-heavy', 'style:two', 'style:many', 'style:empties', 'channel:files', 'channel:listfile', 'channel:sigfile',
+	for n in ['trees_validated', 'style:equidistant', 'style:identical-heavy', 'style:two', 'style:many', 'style:empties', 'style:same-label', 'channel:files', 'channel:listfile', 'channel:sigfile',
 	          'inputs_with_zero_distance', 'inputs_with_tied_distances']:
 		if c.get(n, 0) == 0:
 			inconclusive.append(f'class never observed: {n}')
